@@ -8,6 +8,7 @@ import (
 	"go/constant"
 	"go/token"
 	"go/types"
+	"os"
 	"sort"
 	"strings"
 
@@ -165,6 +166,69 @@ func ruleCompactIDLookups(c *Ctx, m *Model) {
 				continue
 			}
 			st := o.St
+			for _, ph := range prefixHits(st, o) {
+				if ph.table == "DataID" {
+					n++
+					if bad == "" {
+						bad = "a DataID row is taken from " + ph.desc + " at " + p.Pos(ph.pos.Pos()) + " and used without its " + ph.field + " having been found equal to the one wanted (a List over a complete key that ends in a string matches by byte prefix — the entry of \"regen:….txt\" answers for \"regen:….tx\" — and an unkeyed walk yields whatever entry comes next), on path {" + clip(strings.Join(st.facts, " "), 260) + "}"
+					}
+				}
+			}
+			// a DataID row carried by a loop (the probe loop; a merge join against another table): a path
+			// that has left that loop and uses the row must have found its Id or Iri *equal* to the one wanted
+			for _, l := range st.loops {
+				if o.Kind == exitLoopback && strings.HasPrefix(l.Tag, o.Loop) && l.Tag == o.Loop {
+					continue // the loop's own iteration: its header decides at the next entry
+				}
+				for _, ph := range l.Phis {
+					if os.Getenv("E1DEBUG") == "lookup" {
+						fmt.Printf("DBG %s loop %s phi %s havoc=%s (%T)\n", ep.Key(), l.Tag, ph.Name, vstr(ph.Havoc), ph.Havoc)
+					}
+					var ht types.Type
+					switch hv := ph.Havoc.(type) {
+					case *SymPtr:
+						ht = hv.T
+					case *Sym:
+						ht = hv.T
+					}
+					if ht == nil {
+						continue
+					}
+					if nt := namedOf(ht); nt == nil || nt.Obj().Name() != "DataID" {
+						continue
+					}
+					h := st.canon(ph.Havoc)
+					h = strings.TrimPrefix(h, "&")
+					used := false
+					for _, ob := range st.mem {
+						for _, fv := range ob.F {
+							if fv != nil && strings.Contains(st.canon(fv), h+".") {
+								used = true
+							}
+						}
+					}
+					for j := range st.events {
+						for _, v := range st.events[j].Row {
+							if strings.Contains(st.canon(v), h+".") {
+								used = true
+							}
+						}
+					}
+					if !used {
+						continue
+					}
+					n++
+					eq := false
+					for _, f := range st.facts {
+						if strings.HasPrefix(f, "+") && strings.Contains(f, "Eq(") && (strings.Contains(f, h+".Id") || strings.Contains(f, h+".Iri")) {
+							eq = true
+						}
+					}
+					if !eq && bad == "" {
+						bad = "the DataID row " + h + " carried out of loop " + l.Tag + " is used without its Id or Iri having been found equal to the one wanted, on path {" + clip(strings.Join(st.facts, " "), 260) + "}"
+					}
+				}
+			}
 			for i := range st.events {
 				ev := &st.events[i]
 				if ev.Kind != "read" || ev.Table == nil || ev.Table.Name != "DataID" || ev.Method != "Get" || st.errs[ev.ErrID] != 1 {
@@ -1372,4 +1436,93 @@ func hashKeyComponents(v ssa.Value, out map[string]bool, seen map[ssa.Value]bool
 			}
 		}
 	}
+}
+
+// prefixHit: a row obtained from an iterator over List(key) where key binds all components of a primary
+// or unique key and ends in a string / bytes component — a byte-prefix scan — that is used on a
+// committed path without its own column having been compared with the value looked up.
+type prefixHit struct {
+	table, field, desc string
+	pos                ssa.Instruction
+}
+
+func prefixHits(st *State, o *Outcome) []prefixHit {
+	var out []prefixHit
+	for i := range st.events {
+		ev := &st.events[i]
+		if ev.Kind != "read" || ev.OpKind != "itervalue" || ev.Table == nil || len(ev.Keys) != 1 || !inScope(o, ev) {
+			continue
+		}
+		it, ok := ev.Keys[0].(*IterV)
+		if !ok {
+			continue
+		}
+		var ik *IndexKeyV
+		if len(it.Keys) == 1 {
+			ik, _ = it.Keys[0].(*IndexKeyV)
+		}
+		row := st.mem[ev.RowObj]
+		if row == nil {
+			continue
+		}
+		field, desc := "", ""
+		switch {
+		case ik != nil && it.Kind == "List" && ik.PrefixOnly >= 0 && ik.PrefixOnly < len(ik.Fields):
+			field, desc = ik.Fields[ik.PrefixOnly], "List("+ik.Name+")"
+		case ev.Table.Name == "DataID" && row.Preset["Id"] == nil && row.Preset["Iri"] == nil:
+			// the id ⇄ IRI dictionary walked without a key (a merge join, "the next entry"): which entry
+			// the row is must be established by comparing its Id or Iri with the one wanted
+			field, desc = "Id", "an iteration over the DataID table that fixes neither Id nor Iri"
+		default:
+			continue
+		}
+		col := row.Name + "." + field
+		compared := false
+		for fi := ev.Facts; fi < len(st.facts); fi++ {
+			f := st.facts[fi]
+			if strings.Contains(f[1:], "Eq(") && (strings.Contains(f, col) || (ev.Table.Name == "DataID" && strings.Contains(f, row.Name+".Iri"))) && (strings.HasPrefix(f, "+") || field != "Id") {
+				compared = true
+			}
+		}
+		if compared {
+			continue
+		}
+		// used at all? (a row that is only counted or discarded is harmless)
+		used := false
+		for j := i + 1; j < len(st.events) && !used; j++ {
+			e2 := &st.events[j]
+			for _, v := range e2.Row {
+				if strings.Contains(st.canon(v), row.Name+".") {
+					used = true
+				}
+			}
+			for _, v := range append(append([]Val{}, e2.Keys...), e2.Args...) {
+				if strings.Contains(st.canon(v), row.Name+".") {
+					used = true
+				}
+			}
+		}
+		for _, rv := range o.Rets {
+			if rv != nil && strings.Contains(st.canon(rv), row.Name) {
+				used = true
+			}
+		}
+		// copied into a response element / another object
+		for _, ob := range st.mem {
+			if used || ob == row {
+				continue
+			}
+			for _, fv := range ob.F {
+				if fv != nil && strings.Contains(st.canon(fv), row.Name+".") {
+					used = true
+					break
+				}
+			}
+		}
+		if !used {
+			continue
+		}
+		out = append(out, prefixHit{table: ev.Table.Name, field: field, desc: desc, pos: ev.Pos})
+	}
+	return out
 }
